@@ -1,9 +1,10 @@
 #!/opt/veriftools/pyvenv/bin/python3
-import json, jsonschema, sys, glob
-jsonschema.validate(json.load(open('/verif/MANIFEST.json')), json.load(open('/root/.vp/MANIFEST.schema.json')))
+import json, jsonschema, sys, glob, os
+root = os.path.dirname(os.path.dirname(os.path.abspath(__file__)))
+jsonschema.validate(json.load(open(root + '/MANIFEST.json')), json.load(open('/root/.vp/MANIFEST.schema.json')))
 print('manifest ok')
 sch = json.load(open('/root/.vp/EVIDENCE.schema.json'))
-for f in sorted(glob.glob('/verif/evidence/*.json')):
+for f in sorted(glob.glob(root + '/evidence/*.json')):
     try:
         jsonschema.validate(json.load(open(f)), sch); print(f, 'ok')
     except Exception as e:
